@@ -386,8 +386,8 @@ class Advisory:
             routerid: RouterID | None = None,
         ) -> None:
             # Handle both string and bytes input
-            if isinstance(advisory, bytes):
-                utf8 = advisory
+            if isinstance(advisory, (bytes, bytearray, memoryview)):
+                utf8 = bytes(advisory)  # the decoder hands over a memoryview of the message body
             else:
                 utf8 = advisory.encode('utf-8')
             if len(utf8) > MAX_ADVISORY:
@@ -407,8 +407,8 @@ class Advisory:
             routerid: RouterID | None = None,
         ) -> None:
             # Handle both string and bytes input
-            if isinstance(advisory, bytes):
-                utf8 = advisory
+            if isinstance(advisory, (bytes, bytearray, memoryview)):
+                utf8 = bytes(advisory)  # the decoder hands over a memoryview of the message body
             else:
                 utf8 = advisory.encode('utf-8')
             if len(utf8) > MAX_ADVISORY:
